@@ -1519,7 +1519,7 @@ def _collect_if_structure(lines: List[str], start: int) -> Tuple[List[str], int]
     snippet.extend(block)
     while i < len(lines):
         raw = lines[i]
-        text = raw.strip()
+        text = _strip_inline_comment(raw).strip()
         if not text or text.startswith("#"):
             snippet.append(raw)
             i += 1
@@ -1542,7 +1542,7 @@ def _collect_try_structure(lines: List[str], start: int) -> Tuple[List[str], int
     snippet.extend(block)
     while i < len(lines):
         raw = lines[i]
-        text = raw.strip()
+        text = _strip_inline_comment(raw).strip()
         if not text or text.startswith("#"):
             snippet.append(raw)
             i += 1
@@ -2585,8 +2585,8 @@ def _parse_simple_lines(
             j = next_idx
             while j < len(snippet):
                 probe_raw = snippet[j]
-                probe_text = probe_raw.strip()
-                if not probe_text:
+                probe_text = _strip_inline_comment(probe_raw).strip()
+                if not probe_text or probe_text.startswith("#"):
                     j += 1
                     continue
                 if _indent_of(probe_raw) != base_indent:
@@ -2706,8 +2706,8 @@ def _parse_simple_lines(
 
             while j < len(snippet):
                 probe_raw = snippet[j]
-                probe_text = probe_raw.strip()
-                if not probe_text:
+                probe_text = _strip_inline_comment(probe_raw).strip()
+                if not probe_text or probe_text.startswith("#"):
                     j += 1
                     continue
                 if _indent_of(probe_raw) != base_indent:
